@@ -159,6 +159,10 @@ def specs(tier):
                 out.append(dict(module=Mo, scenario="Alias", params=dict(A=A, B=B, op=op, who=who), time_budget=120 if tier == "quick" else 1500))
         for op in ["~", "copy", "deepcopy", "Simple(jordan)" if A in ("square",) else "neg", "Disjoint([S])" if A in ("square", "hollow2") else "+", "E|", "W&", "|E", "&W", "W-", "in", "==", "float", "contains_jordan"]:
             out.append(dict(module=Mo, scenario="Alias", params=dict(A=A, B=B, op=op, who="R" if op not in ("in", "==", "float", "contains_jordan") else "A"), time_budget=60 if tier == "quick" else 600))
+    # copies of composite shapes of every nesting (a Disjoint with a Connected component, a Connected, complements)
+    for A in ["framedot", "hollow", "two"] + (["inv:framedot", "inv:two", "bullseye", "opring"] if tier != "quick" else []):
+        for op in ["copy", "deepcopy", "~", "E|", "W&", "|E", "&W"]:
+            out.append(dict(module=Mo, scenario="Alias", params=dict(A=A, B="unit", op=op, who="R"), time_budget=60 if tier == "quick" else 600))
     for how in ("scale", "invert", "vertex"):
         out.append(dict(module=Mo, scenario="Alias", params=dict(A="square", B="unit", op="&", who="R", how=how), time_budget=120))
         out.append(dict(module=Mo, scenario="Alias", params=dict(A="square", B="unit", op="|", who="A", how=how), time_budget=120))
